@@ -61,7 +61,8 @@ def gen_workflow(rng, mode='mixed'):
     # stages must be 0..k contiguous for FlowIRConcrete
     remap = {s: i for i, s in enumerate(sorted(set(stages)))}
     stages = [remap[s] for s in stages]
-    N = rng.choice([1, 2, 2, 3, 3, 4])
+    # replica counts of ten or more matter: copy names and aggregated inputs must follow the numeric index order
+    N = rng.choice([1, 2, 2, 3, 3, 4, 11, 12])
     gvars, svars = {}, {}
     comps = []
     used = set()
